@@ -8,7 +8,8 @@
 import os
 import sys
 
-if os.environ.get("PYTHONHASHSEED") != "0" or os.environ.get("PYTHONDONTWRITEBYTECODE") != "1":
+if os.environ.get("DST_HASHSEED_FIXED") != "1" and \
+        (os.environ.get("PYTHONHASHSEED") != "0" or os.environ.get("PYTHONDONTWRITEBYTECODE") != "1"):
     os.environ["PYTHONHASHSEED"] = "0"
     os.environ["PYTHONDONTWRITEBYTECODE"] = "1"
     os.execv(sys.executable, [sys.executable] + sys.argv)
